@@ -142,6 +142,79 @@ theorem C20_source_updateManpage_src (name v d page : List Char) :
 
 end SourceTieT2b
 
+/-! ### Capstones: the property composed with the source tie. The TRANSLATED SOURCE ITSELF (`QR.Gen.Code.manpage_update`,
+    regenerated from /repo's current Python AST on every run) satisfies the Spec statement, for all inputs; no `QR.Model`
+    function occurs in a conclusion. Covered: `qrcode/release.py:update_manpage` as a whole - the
+    `data["name"] != "qrcode"` early return, `readlines()`, the `for i, line in enumerate(lines)` loop with its
+    `continue`s and `break`, `re.split`, `'"'.join`, the final `if changed:` write. The Python library functions
+    (`str.startswith`, `str.join`, `readlines`, `re.split` for this pattern) are the translator's `manpage_py_*`
+    definitions in `Gen.Code`; file I/O is abstracted to page text in / text written out (`none` = nothing written);
+    the `strftime` result is the parameter `date`. -/
+section Capstone
+open QR.Model QR.Gen QR.Gen.Code QR.SourceTieT QR.Spec
+
+/-- **capstone, `qrcode/release.py:update_manpage`** = `Spec.expectedManpage`, for arbitrary name, version, date and page: only
+    quoted fields 0 (date) and 1 (version) of the first well-formed `.TH` header line change, everything else is kept in
+    order; nothing is written exactly when the package name differs, no well-formed header line exists, or the version
+    field already equals the new version. From `C20_source_updateManpage_src` and `C20_only_header'`. -/
+theorem C20_source_capstone_only_header (name ver date page : List Char) :
+    manpage_update name ver date page = expectedManpage name ver date page := by
+  rw [← C20_source_updateManpage_src name ver date page]
+  exact C20_only_header' name ver date page
+
+/-- **capstone, `qrcode/release.py:update_manpage`**, definition-free: whenever the translated function writes something, the page
+    has the form `pre ++ t0 "f0" t1 "f1" r ++ post` (`t0, f0, t1, f1` quote-free, `t0` starting with `.TH `), the old
+    version `f1` differs from `ver`, and the text written is `pre ++ t0 "date" t1 "ver" r ++ post`.
+    From `C20_source_updateManpage_src` and `C20_only_fields`. -/
+theorem C20_source_capstone_only_fields (ver date page page' : List Char)
+    (h : manpage_update "qrcode".toList ver date page = some page') :
+    ∃ pre t0 f0 t1 f1 r post,
+      page = pre ++ (t0 ++ '"' :: (f0 ++ '"' :: (t1 ++ '"' :: (f1 ++ '"' :: r)))) ++ post ∧
+      page' = pre ++ (t0 ++ '"' :: (date ++ '"' :: (t1 ++ '"' :: (ver ++ '"' :: r)))) ++ post ∧
+      f1 ≠ ver ∧ (∀ c ∈ t0, c ≠ '"') ∧ (∀ c ∈ f0, c ≠ '"') ∧ (∀ c ∈ t1, c ≠ '"') ∧ (∀ c ∈ f1, c ≠ '"') ∧
+      t0.take 4 = ".TH ".toList := by
+  rw [← C20_source_updateManpage_src] at h
+  exact C20_only_fields ver date page page' h
+
+/-- **capstone, `qrcode/release.py:update_manpage`**, idempotence: after a run of the translated function that wrote `page'`, a
+    second run with the same version writes nothing, whatever the date (`ver`, `date` free of `'"'` and `'\n'`).
+    From `C20_source_updateManpage_src` (twice) and `C20_idempotent`. -/
+theorem C20_source_capstone_idempotent (ver date date' page page' : List Char)
+    (hv : ∀ c ∈ ver, c ≠ '"' ∧ c ≠ '\n') (hd : ∀ c ∈ date, c ≠ '"' ∧ c ≠ '\n')
+    (h : manpage_update "qrcode".toList ver date page = some page') :
+    manpage_update "qrcode".toList ver date' page' = none := by
+  rw [← C20_source_updateManpage_src] at h ⊢
+  exact C20_idempotent ver date date' page page' hv hd h
+
+/-- **capstone, `qrcode/release.py:update_manpage`**, the three no-op cases on the translated function: another package name; no
+    well-formed header line among the lines of the page (`Spec.lineSplit`); the version field (quoted field 1) of the
+    first well-formed header line already equals `ver`.
+    From `C20_source_updateManpage_src` and `C20_other_package`, `C20_noop_no_header`, `C20_noop_same_version`. -/
+theorem C20_source_capstone_noop (name ver date page : List Char) :
+    (name ≠ "qrcode".toList → manpage_update name ver date page = none) ∧
+    ((∀ l ∈ lineSplit (page.length + 1) page, wellFormedHeader l = false) → manpage_update name ver date page = none) ∧
+    (∀ i (hi : i < (lineSplit (page.length + 1) page).length),
+      wellFormedHeader (lineSplit (page.length + 1) page)[i] = true →
+      (∀ j (hj : j < i), wellFormedHeader ((lineSplit (page.length + 1) page)[j]'(by omega)) = false) →
+      quotedField (lineSplit (page.length + 1) page)[i] 1 = ver →
+      manpage_update name ver date page = none) := by
+  rw [← C20_source_updateManpage_src name ver date page]
+  exact ⟨C20_other_package name ver date page, C20_noop_no_header name ver date page,
+    fun i hi hwf hfirst hq => C20_noop_same_version name ver date page i hi hwf hfirst hq⟩
+
+/-- the translated function evaluated by the kernel on a concrete page (a malformed `.TH` line, a good one, a later one):
+    exactly the date and version of the good one are rewritten; a second run on another day writes nothing
+    (as `C20_source_capstone_only_fields` / `C20_source_capstone_idempotent` say) -/
+example :
+    manpage_update "qrcode".toList "8.0".toList "26 Sep 2026".toList
+      "x\n.TH QR 1 \"only one\"\n.TH QR 1 \"1 Jan 2020\" \"7.0\" \"tool\"\n.TH A \"d\" \"6.0\"".toList
+    = some "x\n.TH QR 1 \"only one\"\n.TH QR 1 \"26 Sep 2026\" \"8.0\" \"tool\"\n.TH A \"d\" \"6.0\"".toList
+    ∧ manpage_update "qrcode".toList "8.0".toList "27 Sep 2026".toList
+      "x\n.TH QR 1 \"only one\"\n.TH QR 1 \"26 Sep 2026\" \"8.0\" \"tool\"\n.TH A \"d\" \"6.0\"".toList = none := by
+  decide
+
+end Capstone
+
 /-- the Python functions this property's model mirrors have, in /repo's current working tree, exactly the normalised
     ASTs the model was written and validated against (fingerprints regenerated by T1 on every run) -/
 theorem C20_source_fingerprints : QR.Gen.fp_C20 = QR.Pinned.fp_C20 := by decide
